@@ -75,12 +75,13 @@ def fam(**over):
              PCs={False, True}, Stabs={False}, BFs={False}, CritLists=[()],
              CritMode='set', CritVariants=[], MinCrits=0, MaxCrits=0,
              Press={'id'}, Styles={'plain'}, InfoBlocks={False},
-             CheckIP=False, CheckText=False, ReportCap=1, Detail=True, ExportMode='run')
+             CheckIP=False, CheckText=False, ReportCap=1, Detail=True, ExportMode='run', Shifts={(0, 0, 0)})
     f.update(over)
     f['CritLists'] = tlc.tla_set(f['CritLists'])
     f['CritVariants'] = tlc.tla_set(f['CritVariants'])
     f['PQ'] = tlc.tla_set(f['PQ'])
     f['LQ'] = tlc.tla_set(f['LQ'])
+    f['Shifts'] = tlc.tla_set(f['Shifts'])
     return f
 
 
@@ -194,5 +195,48 @@ def twodigit_lecturers(**over):
     """eleven lecturers / eleven projects (two-digit lecturer numbers), quotas of 10 and more"""
     d = dict(NA=3, NS=2, NP=11, NL=11, MaxLen=2, TieMode='all', AllowEmpty=True, PQ={(0, 1), (0, 10), (10, 12)},
              LQ={(0, 1, 2), (0, 10, 11), (10, 10, 12)}, LecMapMode='mono', Sided={'one', 'two'}, OrderMode='all', Stabs={False}, PCs={False})
+    d.update(over)
+    return fam(**d)
+
+
+def five_long(**over):
+    """two students with strict lists of up to five projects (ranks up to 5)"""
+    d = dict(NA=3, NS=2, NP=5, NL=2, MaxLen=5, TieMode='none', AllowEmpty=False, PQ={(0, 1), (1, 1), (0, 2)}, LQ={(0, 2, 3), (1, 2, 2)},
+             LecMapMode='mono', Sided={'one', 'two'}, OrderMode='asc', Stabs={False})
+    d.update(over)
+    return fam(**d)
+
+
+def three_by_four(**over):
+    """three students, four projects, lists of up to four (rank 4), every tie structure"""
+    d = dict(NA=3, NS=3, NP=4, NL=2, MaxLen=4, TieMode='all', AllowEmpty=False, PQ={(0, 1), (1, 1), (0, 2), (0, 3)}, LQ={(0, 2, 3), (1, 2, 2), (0, 3, 3)},
+             LecMapMode='mono', Sided={'one', 'two'}, OrderMode='asc', Stabs={False})
+    d.update(over)
+    return fam(**d)
+
+
+def five_students(**over):
+    """five students with lists of at most two out of three projects"""
+    d = dict(NA=3, NS=5, NP=3, NL=1, MaxLen=3, TieMode='none', AllowEmpty=False, PQ={(0, 2), (0, 5), (5, 5), (1, 3)}, LQ={(0, 3, 5), (2, 5, 5)},
+             LecMapMode='mono', Sided={'one', 'two'}, OrderMode='asc', Stabs={False})
+    d.update(over)
+    return fam(**d)
+
+
+def both_twodigit(**over):
+    """twelve students AND eleven lecturers (two-digit numbers on both sides), two-sided, strict second-side order"""
+    d = dict(NA=3, NS=12, NP=11, NL=11, MaxLen=2, TieMode='none', AllowEmpty=True, PQ={(0, 2)}, LQ={(0, 2, 4)},
+             LecMapMode='mono', Sided={'two'}, OrderMode='asc', Stabs={False}, PCs={False})
+    d.update(over)
+    return fam(**d)
+
+
+SHIFTS = {(12, 12, 12), (300, 0, 0), (0, 300, 0), (0, 0, 300), (120, 120, 120)}
+
+
+def shifted(core=None, **over):
+    """a small core instance embedded among many dummy agents: active agent numbers of two and three digits"""
+    d = dict(NA=3, NS=2, NP=2, NL=2, PQ={(0, 1), (1, 2), (0, 2)}, LQ={(0, 1, 1), (1, 1, 2), (0, 2, 2)}, OrderMode='all',
+             Stabs={False, True}, Shifts=SHIFTS)
     d.update(over)
     return fam(**d)
